@@ -792,10 +792,12 @@ pub async fn step(env: &mut Env, line: &str) -> Answer {
 }
 
 /// Runs a whole ops file. `new` lines start a fresh server; every other line is a step.
-pub async fn run(input: &str) -> Vec<(String, String)> {
+pub async fn run(input: &str) -> (Vec<(String, String)>, Vec<String>) {
     let _ = deltio::verif::epoch();
     let mut out = Vec::new();
     let mut env: Option<Env> = None;
+    let mut trace: Vec<String> = Vec::new();
+    let mut case_no = 0usize;
     for line in input.lines() {
         let line = line.trim();
         if line.is_empty() || line.starts_with('#') {
@@ -805,7 +807,11 @@ pub async fn run(input: &str) -> Vec<(String, String)> {
         if line == "new" {
             if let Some(e) = env.take() {
                 e.teardown().await;
+                for l in deltio::verif::take_log() {
+                    trace.push(format!("{} {}", case_no, l));
+                }
             }
+            case_no += 1;
             // Align the clock to the next whole second so that every case starts at phase 0
             // of the 100 ms rounding grid and of the 1 ms timer grid.
             let next = (now_us() / 1_000_000 + 1) * 1_000_000;
@@ -815,6 +821,9 @@ pub async fn run(input: &str) -> Vec<(String, String)> {
                 env = Some(Env::new().await);
                 continue;
             }
+            deltio::verif::set_logging(true);
+            let _ = deltio::verif::take_log();
+            trace.push(format!("{} case {}", case_no, now_us()));
             env = Some(Env::new().await);
             PANICKED.store(false, Ordering::SeqCst);
             out.push(("ok".into(), String::new()));
@@ -835,6 +844,10 @@ pub async fn run(input: &str) -> Vec<(String, String)> {
     }
     if let Some(e) = env.take() {
         e.teardown().await;
+        for l in deltio::verif::take_log() {
+            trace.push(format!("{} {}", case_no, l));
+        }
     }
-    out
+    deltio::verif::set_logging(false);
+    (out, trace)
 }
